@@ -29,7 +29,7 @@ A == INSTANCE Asm          \* only its pure helpers: Key, Lookup, JoinPath
 
 Num(n) == [k |-> "num", n |-> n]
 DEFAULT_PC == 49152
-FUEL == 3000               \* instructions after which a run counts as not terminating (a 256-iteration loop fits)
+FUEL == 20000              \* instructions after which a run counts as not terminating (nested 256-iteration loops fit)
 
 (* ---------------------------------------------------------------- expressions *)
 RECURSIVE Ids(_)
@@ -200,13 +200,26 @@ TestNames(ss, scope) ==
 
 (* ---------------------------------------------------------------- the property, declaratively *)
 (* the machine's path from the entry: states before each instruction, ending at a BRK, at an      *)
-(* instruction outside the modelled subset, or when the fuel is used up                           *)
-RECURSIVE PathFrom(_, _)
-PathFrom(c, fuel) ==
+(* instruction outside the modelled subset, when the fuel is used up -- or at the first state in   *)
+(* which an assertion placed at its pc is not true: what the machine would do after that point     *)
+(* cannot matter to the verdict (and a failing test may well loop forever behind its failure)      *)
+Holds(T, c) == \A j \in 1..Len(T.asserts) : T.asserts[j].pc = c.pc => Truth(T.asserts[j], c, T.sigma) = "true"
+RECURSIVE PathFrom(_, _, _)
+PathFrom(T, c, fuel) ==
   IF c.unspec THEN <<>>
-  ELSE IF Rd(c.mem, c.pc) = 0 \/ fuel = 0 THEN <<c>>
-  ELSE <<c>> \o PathFrom(Step(c), fuel - 1)
-Path(T) == PathFrom(Reset(T.entry, T.mem), FUEL)
+  ELSE IF Rd(c.mem, c.pc) = 0 \/ fuel = 0 \/ ~Holds(T, c) THEN <<c>>
+  ELSE <<c>> \o PathFrom(T, Step(c), fuel - 1)
+Path(T) == PathFrom(T, Reset(T.entry, T.mem), FUEL)
+
+(* tier 2 only: the registers along the implementation-shaped path (Cpu!StepM with mirror = TRUE, i.e. adc/sbc  *)
+(* binary although D is set), assertions ignored.  Used to compare hook traces of runs on which the property is   *)
+(* silent because of decimal mode; a mismatch there is model drift, never a violation.                          *)
+RECURSIVE MirrorFrom(_, _)
+MirrorFrom(c, fuel) ==
+  IF c.unspec THEN <<>>
+  ELSE IF Rd(c.mem, c.pc) = 0 \/ fuel = 0 THEN <<Regs(c)>>
+  ELSE <<Regs(c)>> \o MirrorFrom(StepM(c, TRUE), fuel - 1)
+MirrorPath(T) == MirrorFrom(Reset(T.entry, T.mem), FUEL)
 
 (* [v \in {"passed","failed","unspec"}, aid, visit, i] *)
 Ideal(T) ==
